@@ -45,8 +45,8 @@ ASSUMPTIONS = ['the reference is the FrameSpec the Frame was built from; labels 
                'characters, no StoreFilter aliases, "" only in frames without missing values (then store_filter=None on import)',
                'a zero-row table written without its header, and tables with neither rows nor columns, carry no text and are not judged',
                'iter_tuple is called with constructor=tuple when the column labels are not valid namedtuple fields (documented requirement)']
-TIERS = {'quick': {'shards': 8, 'budget_s': 90, 'min_nontrivial': 15000},
-         'thorough': {'shards': 16, 'budget_s': 1200, 'min_nontrivial': 150000}}
+TIERS = {'quick': {'shards': 8, 'budget_s': 300, 'min_nontrivial': 15000},
+         'thorough': {'shards': 16, 'budget_s': 2400, 'min_nontrivial': 150000}}
 ANCHORS = {
     'static_frame.core.frame': ['Frame._to_str_records', 'Frame.to_delimited', 'Frame.to_csv', 'Frame.to_tsv',
                                 'Frame.from_delimited', 'Frame.from_csv', 'Frame.from_tsv', 'Frame._structured_array_to_d_ia_cl',
@@ -157,7 +157,7 @@ def _pickle_case(rng):
 
 def generate(ctx):
     rng = ctx.rng
-    for _ in range(ctx.n(72000, 1500000)):
+    for _ in range(ctx.n(60000, 1500000)):
         r = rng.random()
         if r < 0.62:
             yield _delim_case(rng)
